@@ -954,6 +954,384 @@ def definitions_file(repo, defs):
     return "\n".join(out)
 
 
+
+# ---------------------------------------------------------------------------------------------
+# equality of each regenerated definition with the hand-written model: statements and FIXED proof scripts
+# (tactics and bridge lemmas: coq/theories/Bounds/GenBridge.v)
+# ---------------------------------------------------------------------------------------------
+EQ_PROOFS = {
+    'g_is_infinite': r'''Theorem g_is_infinite_eq : forall a, g_is_infinite a = ext_is_inf a.
+Proof. bx_ext. Qed.
+''',
+    'g_sign': r'''Theorem g_sign_eq : forall a, g_sign a = Some (ext_sign a).
+Proof. bx_ext. Qed.
+''',
+    'g_add': r'''Theorem g_add_eq : forall a b, g_add a b = ext_add a b.
+Proof. bx_ext. Qed.
+''',
+    'g_sub': r'''Theorem g_sub_eq : forall a b, g_sub a b = ext_sub a b.
+Proof. bx_ext. Qed.
+''',
+    'g_mul': r'''Theorem g_mul_eq : forall a b, g_mul a b = Some (ext_mul a b).
+Proof. bx_ext. Qed.
+''',
+    'g_max': r'''Theorem g_max_eq : forall x l, g_max (x :: l) = ext_max_list (x :: l).
+Proof. intros. rewrite <- (max_shape_model g_is_infinite g_is_infinite_eq). reflexivity. Qed.
+''',
+    'g_min': r'''Theorem g_min_eq : forall x l, g_min (x :: l) = ext_min_list (x :: l).
+Proof. intros. rewrite <- (min_shape_model g_is_infinite g_is_infinite_eq). reflexivity. Qed.
+''',
+    'g_greatest_common_divisor': r'''Theorem g_greatest_common_divisor_eq : forall a b, g_greatest_common_divisor a b = gcd_spec a b.
+Proof. bx_ext. Qed.
+''',
+    'g_shared_modular_value': r'''Theorem g_shared_modular_value_eq : forall lm lv rm rv, md_nonneg lm -> md_nonneg rm ->
+  g_shared_modular_value (m2e lm, Fin lv) (m2e rm, Fin rv) = option_map sh2g (shared_modular_value lm lv rm rv).
+Proof.
+  intros lm lv rm rv Hl Hr. unfold g_shared_modular_value, shared_modular_value.
+  bx_gcd g_greatest_common_divisor_eq. bx_gcd_cases.
+  all: first [solve [bx_fin] | destruct lm, rm; solve [bx_fin]].
+Qed.
+''',
+    'g_compute_constraints_of_additive_operator': r'''Theorem g_compute_constraints_of_additive_operator_eq : forall sub l r, md_nonneg l.(md) -> md_nonneg r.(md) ->
+  g_compute_constraints_of_additive_operator (fn_of sub) [a2g l; a2g r] = option_map a2g (aval_additive sub l r).
+Proof.
+  intros sub [llo lhi lmd lmv] [rlo rhi rmd rmv] Hl Hr. cbn [md] in Hl, Hr.
+  unfold g_compute_constraints_of_additive_operator, aval_additive.
+  destruct sub; cbn [fn_of gfn_eqb]; bx_gcd g_greatest_common_divisor_eq;
+  rewrite ?g_add_eq, ?g_sub_eq; cbn [ext_sub ext_add ext_neg]; bx_gcd_cases;
+  repeat match goal with |- context [ext_sub ?a ?b] => destruct (ext_sub a b) end;
+  repeat match goal with |- context [ext_add ?a ?b] => destruct (ext_add a b) end;
+  bx_fin.
+Qed.
+''',
+    'g_compute_constraints_of_multiplicative_operator': r'''Local Opaque g_greatest_common_divisor.
+Theorem g_compute_constraints_of_multiplicative_operator_eq : forall l r, aval_wf l -> aval_wf r ->
+  g_compute_constraints_of_multiplicative_operator [a2g l; a2g r] = option_map a2g (aval_mul l r).
+Proof.
+  intros [llo lhi lmd lmv] [rlo rhi rmd rmv] Hl Hr. unfold aval_wf in Hl, Hr; cbn [md mv] in Hl, Hr.
+  unfold g_compute_constraints_of_multiplicative_operator, aval_mul.
+  cbn [py_nth nth_error a2g g_minimum_value g_maximum_value g_modulus g_modular_value lo hi md mv].
+  rewrite !g_mul_eq. cbn iota. rewrite g_min_eq, g_max_eq.
+  destruct (ext_min_list _) as [mn|]; [|reflexivity].
+  destruct (ext_max_list _) as [mx|]; [|reflexivity].
+  destruct lmd as [lm|], rmd as [rm|]; bx_cbn.
+  4: reflexivity.
+  2: { destruct (rmv =? 0) eqn:E0; [reflexivity|]. rewrite py_mod_nz by bx_nz. reflexivity. }
+  2: { destruct (lmv =? 0) eqn:E0; [reflexivity|]. rewrite py_mod_nz by bx_nz. bx_fin. }
+  repeat (bx_gcd g_greatest_common_divisor_eq; bx_gcd_cases; bx_cbn).
+  all: repeat (match goal with |- context [if ?c then _ else _] => destruct c eqn:? end; bx_cbn); try reflexivity.
+  all: bx_gcd g_greatest_common_divisor_eq;
+       repeat match goal with E : gcdx ?a ?b = _ |- context [gcdx ?a ?b] => rewrite E end;
+       bx_cbn; rewrite ?Z.mul_1_l; rewrite ?py_mod_nz by bx_nz; try reflexivity.
+Qed.
+''',
+    'g_compute_constraints_of_choice_operator': r'''Theorem g_compute_constraints_of_choice_operator_eq : forall t f, md_nonneg t.(md) -> md_nonneg f.(md) ->
+  g_compute_constraints_of_choice_operator None (a2g t) (a2g f) = option_map a2g (aval_choice t f).
+Proof.
+  intros [tlo thi tmd tmv] [flo fhi fmd fmv] Ht Hf. cbn [md] in Ht, Hf.
+  unfold g_compute_constraints_of_choice_operator, aval_choice. bx_proj.
+  rewrite g_min_eq, g_max_eq. bx_proj. rewrite g_shared_modular_value_eq by assumption.
+  destruct (shared_modular_value _ _ _ _) as [[m v]|]; reflexivity.
+Qed.
+
+Theorem g_compute_constraints_of_choice_operator_const : forall b t f,
+  g_compute_constraints_of_choice_operator (Some b) t f = Some (if b then t else f).
+Proof. intros [|] [? ? ? ?] [? ? ? ?]; reflexivity. Qed.
+''',
+    'g_compute_constraints_of_maximum_function': r'''Theorem g_compute_constraints_of_maximum_function_eq : forall args, Forall (fun a => md_nonneg a.(md)) args ->
+  (r <- g_compute_constraints_of_maximum_function (map a2g args);; g2a r) = aval_max args.
+Proof.
+  intros [|a0 rest] Hall; [reflexivity|]. inversion Hall as [|? ? H0 Hrest]; subst.
+  destruct a0 as [lo0 hi0 md0 mv0]. cbn [md] in H0.
+  unfold g_compute_constraints_of_maximum_function, aval_max. cbn [map].
+  rewrite !g_max_eq, map_a2g_lo, map_a2g_hi. bx_proj.
+  destruct (ext_eqb _ _).
+  - destruct (fold_left ext_max2 (map lo rest) lo0); reflexivity.
+  - rewrite (foldM_shared g_shared_modular_value g_shared_modular_value_eq) by assumption.
+    destruct (shared_fold md0 mv0 rest) as [[m v]|]; cbn [option_map sh2g fst snd]; [apply g2a_mk|reflexivity].
+Qed.
+''',
+}
+
+
+def theorem_names_of(pyname):
+    import re
+    return re.findall(r"^Theorem\s+(\w+)", EQ_PROOFS[gname(pyname)], re.M)
+
+
+def equality_file(defs, logical_defs, assum_dir=None):
+    """Text of the theorem file for the functions in `defs` (all of ORDER when the translation is complete)."""
+    out = ["(* GENERATED by harness/bounds_x.py: each regenerated definition equals the model function of Bounds/Model.v *)",
+           "From Coq Require Import ZArith List Bool Lia ZifyBool.", "Import ListNotations.",
+           "Require Import EmbossV.Bounds.Model EmbossV.Bounds.GenBridge.", "Require Import %s." % logical_defs,
+           "Open Scope Z_scope.", ""]
+    names = []
+    for name in ORDER:
+        if name in defs:
+            out.append(EQ_PROOFS[gname(name)])
+            names += theorem_names_of(name)
+    if assum_dir:
+        for n in names:
+            out.append('Redirect "%s" Print Assumptions %s.' % (os.path.join(assum_dir, n), n))
+    return "\n".join(out) + "\n", names
+
+
+
+# ---------------------------------------------------------------------------------------------
+# the check: regenerate, compile, prove; on failure evaluate both sides on a grid and search for a failing input
+# ---------------------------------------------------------------------------------------------
+LOGICAL = "EmbossVBx"
+
+
+def _z(n):
+    n = int(n)
+    return "(%d)" % n if n < 0 else "%d" % n
+
+
+def _ext(x):
+    return {"infinity": "PosInf", "-infinity": "NegInf"}.get(x) or "(Fin %s)" % _z(x)
+
+
+def _mod(x):
+    return "None" if x == "infinity" else "(Some %s)" % _z(x)
+
+
+def _aval(a):
+    return "(mk_aval %s %s %s %s)" % (_ext(a[0]), _ext(a[1]), _mod(a[2]), _z(a[3]))
+
+
+EXT_GRID = ["-infinity", "infinity", 0, 1, -1, 2, -3, 7, 255, -128, 2**32, -(2**63), 2**64 - 1]
+SMALL_EXT = ["-infinity", "infinity", 0, 5, -7, 2**40]
+MOD_GRID = ["infinity", 1, 2, 4, 6, 12, 20]
+VAL_GRID = [0, 1, 3, 4, 7, 15]
+
+# operands of rule-level grid points: Emboss snippet ({a} = field suffix) or None, and a fallback annotation
+# (minimum, maximum, modulus, modular_value); realisable ones are re-read from the real compiler when searching
+OPERANDS = [
+    ("0", (0, 0, "infinity", 0)), ("1", (1, 1, "infinity", 1)), ("5", (5, 5, "infinity", 5)), ("12", (12, 12, "infinity", 12)),
+    ("(0-1)", (-1, -1, "infinity", -1)), ("(0-7)", (-7, -7, "infinity", -7)), ("1099511627776", (2**40, 2**40, "infinity", 2**40)),
+    ("u8{a}", (0, 255, 1, 0)), ("s8{a}", (-128, 127, 1, 0)), ("(u8{a}*4+3)", (3, 1023, 4, 3)), ("(s8{a}*6+2)", (-766, 764, 6, 2)),
+    ("(u8{a}*12+7)", (7, 3067, 12, 7)), ("(u16{a}*20+15)", (15, 1310715, 20, 15)),
+    ("big{a}", ("-infinity", "infinity", 1, 0)), ("$max(big{a}, 5)", (5, "infinity", 1, 0)),
+    ("(0-$max(big{a}, 5))", ("-infinity", -5, 1, 0)), ("(big{a}*4+1)", ("-infinity", "infinity", 4, 1)),
+    ("$max(big{a}, 0)", (0, "infinity", 1, 0)),
+    (None, ("-infinity", 5, 1, 0)), (None, (-3, "infinity", 4, 1)), (None, (0, 0, "infinity", 0)), (None, (-6, 9, 3, 0)),
+]
+MODULE = ('[$default byte_order: "LittleEndian"]\nstruct Foo:\n  0 [+1]  UInt  na\n  1 [+1]  UInt  nb\n  2 [+1]  UInt  u8a\n'
+          '  3 [+1]  UInt  u8b\n  4 [+1]  Int  s8a\n  5 [+1]  Int  s8b\n  6 [+2]  UInt  u16a\n  8 [+2]  UInt  u16b\n'
+          '  10 [+1]  bits:\n    0 [+1]  Flag  fl\n  11 [+na]  UInt  biga\n  300 [+nb]  UInt  bigb\n  let v = %s\n')
+
+
+def grids():
+    """{python function name: dict(ty, lhs, rhs, eqb, points=[(coq term of the argument tuple, python object)])}"""
+    g = {}
+    e1 = [(_ext(a), (a,)) for a in EXT_GRID]
+    e2 = [("(%s, %s)" % (_ext(a), _ext(b)), (a, b)) for a in EXT_GRID for b in EXT_GRID]
+    g["_is_infinite"] = dict(ty="ext", lhs="g_is_infinite x", rhs="ext_is_inf x", eqb="Bool.eqb", points=e1)
+    g["_sign"] = dict(ty="ext", lhs="g_sign x", rhs="Some (ext_sign x)", eqb="bx_opt Z.eqb", points=e1)
+    for n, m in (("_add", "ext_add (fst x) (snd x)"), ("_sub", "ext_sub (fst x) (snd x)"), ("_mul", "Some (ext_mul (fst x) (snd x))"),
+                 ("_greatest_common_divisor", "gcd_spec (fst x) (snd x)")):
+        g[n] = dict(ty="(ext * ext)", lhs="%s (fst x) (snd x)" % gname(n), rhs=m, eqb="bx_opt ext_eqb", points=e2)
+    ls = [[a] for a in SMALL_EXT] + [[a, b] for a in SMALL_EXT for b in SMALL_EXT] + \
+         [[a, b, c] for a in SMALL_EXT for b in SMALL_EXT for c in SMALL_EXT]
+    lp = [("[%s]" % "; ".join(_ext(a) for a in l), (l,)) for l in ls]
+    g["_max"] = dict(ty="(list ext)", lhs="g_max x", rhs="ext_max_list x", eqb="bx_opt ext_eqb", points=lp)
+    g["_min"] = dict(ty="(list ext)", lhs="g_min x", rhs="ext_min_list x", eqb="bx_opt ext_eqb", points=lp)
+    sp = [("(%s, %s, %s, %s)" % (_mod(lm), _z(lv), _mod(rm), _z(rv)), (lm, lv, rm, rv))
+          for lm in MOD_GRID for lv in VAL_GRID for rm in MOD_GRID for rv in VAL_GRID]
+    g["_shared_modular_value"] = dict(
+        ty="(modulus * Z * modulus * Z)",
+        lhs="let '(lm, lv, rm, rv) := x in g_shared_modular_value (m2e lm, Fin lv) (m2e rm, Fin rv)",
+        rhs="let '(lm, lv, rm, rv) := x in option_map sh2g (shared_modular_value lm lv rm rv)", eqb="bx_opt bx_pair_eqb", points=sp)
+    n = len(OPERANDS)
+    pairs = [(i, j) for i in range(n) for j in range(n)]
+    pp = lambda: [("(%s, %s)" % (_aval(OPERANDS[i][1]), _aval(OPERANDS[j][1])), (i, j)) for i, j in pairs]
+    for sub in (False, True):
+        g["_compute_constraints_of_additive_operator" + (":sub" if sub else ":add")] = dict(
+            ty="(aval * aval)", lhs="g_compute_constraints_of_additive_operator %s [a2g (fst x); a2g (snd x)]" % ("SUBTRACTION" if sub else "ADDITION"),
+            rhs="option_map a2g (aval_additive %s (fst x) (snd x))" % ("true" if sub else "false"), eqb="bx_opt grec_eqb", points=pp(),
+            template="%s - %s" if sub else "%s + %s")
+    g["_compute_constraints_of_multiplicative_operator"] = dict(
+        ty="(aval * aval)", lhs="g_compute_constraints_of_multiplicative_operator [a2g (fst x); a2g (snd x)]",
+        rhs="option_map a2g (aval_mul (fst x) (snd x))", eqb="bx_opt grec_eqb", points=pp(), template="%s * %s")
+    g["_compute_constraints_of_choice_operator"] = dict(
+        ty="(aval * aval)", lhs="g_compute_constraints_of_choice_operator None (a2g (fst x)) (a2g (snd x))",
+        rhs="option_map a2g (aval_choice (fst x) (snd x))", eqb="bx_opt grec_eqb", points=pp(), template="(fl ? %s : %s)")
+    triples = [(i, j, (i * 7 + j * 3 + 1) % n) for i, j in pairs if (i + 2 * j) % 3 == 0]
+    mp = [("[%s]" % "; ".join(_aval(OPERANDS[k][1]) for k in t), t) for t in pairs + triples]
+    g["_compute_constraints_of_maximum_function"] = dict(
+        ty="(list aval)", lhs="(r <- g_compute_constraints_of_maximum_function (map a2g x);; g2a r)", rhs="aval_max x",
+        eqb="bx_opt aval_eqb'", points=mp, template="$max(%s)")
+    return g
+
+
+def grid_file(defs, out_base):
+    """Coq file evaluating, per translated function, [eqb (generated x) (model x)] over the grid."""
+    gs = grids()
+    lines = ["From Coq Require Import ZArith List Bool.", "Import ListNotations.",
+             "Require Import EmbossV.Bounds.Model EmbossV.Bounds.GenBridge.", "Require Import %s.BoundsGen." % LOGICAL,
+             "Open Scope Z_scope."]
+    used = []
+    for k, (key, spec) in enumerate(gs.items()):
+        if key.split(":")[0] not in defs:
+            continue
+        used.append((k, key, spec))
+        lines.append("Definition grid_%d : list %s := [\n%s].\n" % (k, spec["ty"], ";\n".join(t for t, _ in spec["points"])))
+        lines.append('Redirect "%s_%d" Eval vm_compute in (map (fun x => %s (%s) (%s)) grid_%d).'
+                     % (out_base, k, spec["eqb"], spec["lhs"], spec["rhs"], k))
+    return "\n".join(lines) + "\n", used
+
+
+def _compile(fw, path, d, timeout=900):
+    return fw.coqc(path, timeout=timeout, extra_flags=["-Q", d, LOGICAL])
+
+
+def run_tie(ctx, c05):
+    """The regenerated-model tie of C05.  Returns True when every equality theorem checked."""
+    from harness import fw
+    import re
+    import shutil
+    d = os.path.join(ctx.bdir, "boundsx")
+    shutil.rmtree(d, ignore_errors=True)
+    os.makedirs(d)
+    src_path = os.path.join(fw.REPO, SRC)
+    try:
+        defs, fails = translate(fw.REPO)
+    except (OSError, SyntaxError) as ex:
+        ctx.obligation("expression_bounds.py translated to Gallina", False)
+        ctx.violation("bounds-translator", "cannot read/parse %s: %r" % (src_path, ex),
+                      dict(kind="tie", translator="harness/bounds_x.py", error=repr(ex)), found_input=False)
+        return False
+    ctx.extra["bounds_translator"] = dict(source=src_path, translated=[n for n in ORDER if n in defs],
+                                          rejected=[str(f) for f in fails], recognised_noops=NOOPS)
+    ctx.obligation("expression_bounds.py translated to Gallina by the fail-closed translator (%d of %d functions)"
+                   % (len(defs), len(ORDER)), not fails)
+    for f in fails:
+        ctx.violation("bounds-translator", "harness/bounds_x.py no longer understands %s of expression_bounds.py: %s"
+                      % (f.fn, f.what + (" (line %s)" % f.line if f.line else "")),
+                      dict(kind="tie", translator="harness/bounds_x.py", function=f.fn, line=f.line, what=f.what,
+                           tie="regenerated definition of %s = model function of Bounds/Model.v" % f.fn), found_input=False)
+    rc, out = fw.coq_make(["Bounds/GenBridge.vo"])
+    if rc != 0:
+        ctx.obligation("Bounds/GenBridge.v builds", False)
+        ctx.violation("proof-broken:Bounds/GenBridge.v", "static bridge file does not build", dict(kind="proof", log=out[-3000:]), found_input=False)
+        return False
+    gen_v = os.path.join(d, "BoundsGen.v")
+    open(gen_v, "w").write(definitions_file(fw.REPO, defs))
+    rc, out = _compile(fw, gen_v, d)
+    if rc != 0:
+        ctx.obligation("regenerated definitions compile", False)
+        ctx.violation("bounds-translator", "the Gallina regenerated from expression_bounds.py does not type-check",
+                      dict(kind="tie", translator="harness/bounds_x.py", file=gen_v, log=out[-3000:]), found_input=False)
+        return False
+    # theorems only for functions whose own definition and whose callees were translated
+    eq_v = os.path.join(d, "BoundsGenEq.v")
+    adir = os.path.join(d, "assum")
+    os.makedirs(adir)
+    text, names = equality_file(defs, LOGICAL + ".BoundsGen", adir)
+    open(eq_v, "w").write(text)
+    problems = fw.audit_file(gen_v) + fw.audit_file(eq_v)
+    ctx.obligation("audit of the generated files", not problems)
+    if problems:
+        ctx.violation("audit", "forbidden vernacular in generated files", dict(kind="audit", problems=problems), found_input=False)
+    rc, out = _compile(fw, eq_v, d)
+    if rc == 0:
+        ok = True
+        for n in names:
+            pth = os.path.join(adir, n + ".out")
+            closed = os.path.exists(pth) and "Closed under the global context" in open(pth).read()
+            ctx.obligation("regenerated = model: " + n, closed, [] if closed else ["<not closed>"])
+            if not closed:
+                ok = False
+                ctx.violation("axiom:" + n, "generated theorem %s is not closed under the global context" % n,
+                              dict(kind="axiom", theorem=n), found_input=False)
+        return ok and not fails
+    # ---- some equality no longer checks: which one, and is there a concrete failing input? -----------------
+    m = re.findall(r'line (\d+), characters', out)
+    broken = "?"
+    if m:
+        upto = "\n".join(text.split("\n")[:int(m[0])])
+        th = re.findall(r"^Theorem\s+(\w+)", upto, re.M)
+        broken = th[-1] if th else "?"
+    for n in names:
+        ctx.obligation("regenerated = model: " + n, False)
+    ctx.note("generated equality theorem %s no longer checks:\n%s" % (broken, out[-1500:]))
+    gtext, used = grid_file(defs, os.path.join(d, "grid"))
+    grid_v = os.path.join(d, "BoundsGrid.v")
+    open(grid_v, "w").write(gtext)
+    rc2, out2 = _compile(fw, grid_v, d)
+    diffs = {}
+    if rc2 == 0:
+        for k, key, spec in used:
+            t = open(os.path.join(d, "grid_%d.out" % k)).read()
+            vals = re.findall(r"\b(true|false)\b", t.split("=", 1)[1].rsplit(":", 1)[0])
+            if len(vals) != len(spec["points"]):
+                ctx.note("grid output of %s not understood" % key)
+                continue
+            bad = [spec["points"][i][1] for i, v in enumerate(vals) if v == "false"]
+            ctx.count("grid-points:" + key, len(vals))
+            if bad:
+                diffs[key] = (spec, bad)
+    else:
+        ctx.note("grid evaluation failed: %s" % out2[-1500:])
+    found = search_inputs(ctx, c05, diffs)
+    summary = {k: [repr(x) for x in b[:8]] for k, (sp, b) in diffs.items()}
+    if not found:
+        ctx.violation("bounds-regenerated-model:" + broken,
+                      "the definition regenerated from expression_bounds.py is no longer proved equal to the model (theorem %s); "
+                      "%s" % (broken, "it differs from the model on grid arguments %s but no expression with unsound bounds was found"
+                              % summary if diffs else "no difference on the argument grid"),
+                      dict(kind="tie", theorem=broken, file=eq_v, grid_differences=summary, log=out[-2500:]), found_input=False)
+    return False
+
+
+def search_inputs(ctx, c05, diffs):
+    """Turn grid differences of the rule-level functions into Emboss expressions and look for an environment on which the
+    real compiler's annotation is wrong (c05.search_counterexample), or for a crash of the pass.  True when one was reported."""
+    from harness import irx
+    found = False
+    budget = 160
+    for key, (spec, bad) in diffs.items():
+        if "template" not in spec:
+            continue
+        step = max(1, len(bad) // 40)
+        for t in bad[::step]:
+            ops = [OPERANDS[k][0] for k in t]
+            if any(o is None for o in ops) or budget <= 0:
+                continue
+            budget -= 1
+            sn = [o.replace("{a}", "ab"[min(i, 1)]) for i, o in enumerate(ops)]
+            expr = spec["template"] % (", ".join(sn) if key.endswith("maximum_function") else tuple(sn))
+            text = MODULE % expr
+            ctx.count("search-modules:" + key)
+            try:
+                ir, errs = c05.compile_for_bounds(text)
+            except Exception as ex:
+                import traceback
+                tb = traceback.extract_tb(ex.__traceback__)
+                if any(fr.filename.endswith("expression_bounds.py") for fr in tb[-3:]):
+                    ctx.violation("bounds-assert", "expression_bounds raised %r (line %d) on 'let v = %s'" % (ex, tb[-1].lineno, expr),
+                                  dict(kind="module", module=text, exception=repr(ex), line=tb[-1].lineno, from_grid_difference=key),
+                                  found_input=True)
+                    found = True
+                continue
+            if errs or ir is None:
+                continue
+            for (e, where, attr) in irx.top_level_expressions(ir):
+                if where != "Foo/v" or attr is not None:
+                    continue
+                cex = c05.search_counterexample(ctx, ir, e, tries=60)
+                if cex:
+                    ctx.violation("bounds-unsound", "inferred bounds wrong for 'let v = %s': %s (found from a difference between the "
+                                  "regenerated %s and the model)" % (expr, cex[1], key),
+                                  dict(kind="expression", module=text, where=where, environment=cex[0], message=cex[1],
+                                       from_grid_difference=key, python=str(irx.annotation(e))), found_input=True)
+                    found = True
+        if found:
+            break
+    return found
+
+
 if __name__ == "__main__":
     import sys
     repo = sys.argv[1] if len(sys.argv) > 1 else "/repo"
